@@ -10,6 +10,7 @@ import (
 
 	"github.com/buildbuildio/pebbles/planner"
 	"github.com/buildbuildio/pebbles/requests"
+	"github.com/buildbuildio/pebbles/verifhook"
 	"github.com/gobwas/ws"
 	"github.com/gobwas/ws/wsutil"
 	"github.com/vektah/gqlparser/v2"
@@ -42,6 +43,7 @@ func sendHeartbeat(ctx context.Context, conn net.Conn) error {
 	for {
 		select {
 		case <-timeTicker.C:
+			verifhook.At("sub.heartbeat.tick", conn)
 			if err := wsutil.WriteServerText(conn, bMsg); err != nil {
 				return err
 			}
@@ -85,8 +87,10 @@ func (g *Gateway) subscriptionHandler(w http.ResponseWriter, r *http.Request) {
 		// close conn
 		conn.Close()
 
+		verifhook.At("sub.handler.clean", conn)
 		// close all running handlers
 		subDict.CleanAll()
+		verifhook.At("sub.handler.exit", conn)
 	}()
 
 	for {
@@ -99,6 +103,7 @@ func (g *Gateway) subscriptionHandler(w http.ResponseWriter, r *http.Request) {
 		if err := json.Unmarshal(msg, &subMsg); err != nil {
 			return
 		}
+		verifhook.At("sub.handler.msg", conn)
 
 		switch subMsg.Type {
 		// When the GraphQL WS connection is initiated, send an ACK back
